@@ -9,6 +9,7 @@ import (
 	"runtime"
 	"sort"
 	"strings"
+	"time"
 )
 
 type Tier int
@@ -175,7 +176,12 @@ type Case struct {
 	evals uint64
 
 	newEchoes []echo
+	nfail     int
 }
+
+// Failed reports whether this case has recorded a violation already (exhaustive inner loops stop there: on a broken
+// tree every further call may cost seconds, and the case is decided).
+func (c *Case) Failed() bool { return c.nfail > 0 }
 
 // Evals adds n evaluations (library executions judged by an oracle) to the count.
 func (c *Case) Evals(n uint64) { c.evals += n }
@@ -205,6 +211,7 @@ func (c *Case) Echo(name string, f func() string) {
 
 // Failf records a violation under signature sig.
 func (c *Case) Failf(sig string, format string, args ...any) {
+	c.nfail++
 	v := c.W.Res.Violations[sig]
 	if v == nil {
 		d := fmt.Sprintf(format, args...)
@@ -351,6 +358,12 @@ func RunWorker(o WorkerOpts) int {
 	w.prog = openProgress(o.Progress)
 	defer w.prog.close()
 	limitAddressSpace()
+	openKnown := map[string]bool{}
+	for _, k := range loadKnown(os.Getenv("VERIF_DIR")) {
+		if k.Property == p.ID && k.Status == "open" {
+			openKnown[k.Signature] = true
+		}
+	}
 	if p.Setup != nil {
 		p.Setup(w)
 	}
@@ -386,6 +399,8 @@ func RunWorker(o WorkerOpts) int {
 			w.runCase(st, o.Idx)
 			continue
 		}
+		ran := 0
+		stageStart := time.Now()
 		for idx := uint64(o.Shard); idx < n; idx += uint64(o.NShards) {
 			if o.Skip[fmt.Sprintf("%s:%d", st.Name, idx)] {
 				w.Res.Counters["skipped_after_fatal"]++
@@ -394,6 +409,22 @@ func RunWorker(o WorkerOpts) int {
 			w.runCase(st, idx)
 			if w.Res.HarnessErr != "" {
 				break
+			}
+			// a tree that violates the property in this stage thousands of times has been decided; on some broken trees
+			// every further case costs seconds (gigabyte allocations from a desynchronised stream). Recorded findings
+			// (known_findings.json, status open) do not count: they occur on the unchanged tree.
+			if ran++; ran%32 == 0 || time.Since(stageStart) > 90*time.Second {
+				var nv uint64
+				for sig, v := range w.Res.Violations {
+					if v.Stage == st.Name && !openKnown[sig] {
+						nv += v.Count
+					}
+				}
+				// (wall clock is used here only to stop exploring a tree that is already known to violate)
+				if nv >= 3000 || (nv >= 20 && time.Since(stageStart) > 90*time.Second) {
+					w.Res.Counters["stages_abandoned_after_violations"]++
+					break
+				}
 			}
 		}
 		if w.Hooks != nil {
